@@ -520,4 +520,18 @@ theorem size_ne_zero_of_pos (s : St) (x : Nat) (h : 0 < valOf s x) : (s.h x).siz
 
 macro "dq" : tactic => `(tactic| first | assumption | (apply Ne.symm; assumption))
 
+
+theorem top_ne_zero (o : Obj) (h : OWF o) (h0 : o.size ≠ 0) : o.buf.limbs.getD (o.size.natAbs - 1) junk ≠ 0 := by
+  obtain ⟨hb, _, hfit, hlen, _, hn⟩ := h
+  simp only [view] at hlen hn hfit
+  have hpos : 0 < o.size.natAbs := by omega
+  have hne : o.buf.limbs.take o.size.natAbs ≠ [] := by
+    intro e; rw [e] at hlen; simp at hlen; omega
+  rw [List.getLast?_eq_some_getLast hne] at hn
+  have : (o.buf.limbs.take o.size.natAbs).getLast hne = o.buf.limbs.getD (o.size.natAbs - 1) junk := by
+    rw [List.getLast_eq_getElem]
+    simp only [hlen, List.getElem_take]
+    rw [List.getD_eq_getElem?_getD, List.getElem?_eq_getElem (by rw [hb.1]; omega)]; rfl
+  intro e; apply hn; rw [this, e]
+
 end Mpir.AllocSafe6
